@@ -8,7 +8,11 @@
 (*   k   "p" paragraph, "tbl" table, "sect" section settings,              *)
 (*       "bms"/"bme" bookmark start/end, "sdt" content control (TOC),      *)
 (*       "math" formula paragraph (not a *Paragraph for index purposes)    *)
-(* An operation is a record  [op |-> name, ...args].                       *)
+(* An operation is a record  [op |-> name, ...args].  Constructors that    *)
+(* take a text carry txt \in {"tok", "empty"} (absent = "tok"): the class  *)
+(* of the text never changes what is appended.  "Read" (what \in {"paras", *)
+(* "tables"}) is the accessor pair GetParagraphs / GetTables: it changes    *)
+(* nothing and returns exactly the live elements of that kind, in order.    *)
 (***************************************************************************)
 EXTENDS Integers, Sequences, FiniteSets, TLC
 
@@ -45,12 +49,13 @@ Appends(op) ==
     [] op.op = "AddEndnote"                      -> <<"p">>
     [] op.op = "AddMathFormula"                  -> <<"math">>
     [] op.op = "GenerateTOC"                     -> <<"sdt">>
+    [] op.op = "AddElement"                      -> <<op.k>>
     [] OTHER                                     -> <<>>
 
 Constructors == {"AddParagraph", "AddFormattedParagraph", "AddHeadingParagraph",
                  "AddHeadingParagraphWithBookmark", "AddHeadingWithBookmark",
                  "AddPageBreak", "AddTable", "AddImage", "AddListItem", "AddFootnote",
-                 "AddEndnote", "AddMathFormula", "GenerateTOC"}
+                 "AddEndnote", "AddMathFormula", "GenerateTOC", "AddElement"}
 
 \* calls that (find or) create the section settings; they never move anything
 SectTouchers == {"SetPageMargins", "SetPageSize", "SetPageOrientation", "GetPageSettings",
@@ -58,6 +63,15 @@ SectTouchers == {"SetPageMargins", "SetPageSize", "SetPageOrientation", "GetPage
                  "SetDifferentFirstPage", "SetDocGrid", "ClearDocGrid"}
 
 Removers == {"RemoveParagraph", "RemoveParagraphAt", "RemoveElementAt"}
+
+\* constructors whose text argument is an argument class of the model
+TextCtors == {"AddParagraph", "AddFormattedParagraph", "AddHeadingParagraph", "AddListItem", "AddFootnote", "AddEndnote"}
+
+\* Body.AddElement(el) appends the element it is given (a paragraph or a table built by the caller)
+\* Read: the uids GetParagraphs / GetTables must return
+Readers == {"Read"}
+ReadKind(op) == IF op.what = "tables" THEN "tbl" ELSE "p"
+ReadResult(s, op) == LET z == SelectSeq(s.els, LAMBDA e : e.k = ReadKind(op)) IN [i \in 1..Len(z) |-> z[i].u]
 
 Fresh(s, kinds) == [i \in 1..Len(kinds) |-> [u |-> s.nxt + i - 1, k |-> kinds[i]]]
 
